@@ -1452,17 +1452,17 @@ PROPERTY = Property(
     "C18", "Uniform and layered tracers reduce to image geometry and the one-medium tracer",
     [
         SubCheck("uniform_existence", uniform_cases(outside=True), check_uniform_existence,
-                 quick=1500, thorough=60000,
+                 quick=1000, thorough=60000,
                  rule="UniformIce (n 1.1-2, any range, boundary indices set/None) x endpoints (inside, on and "
                       "1 ulp inside the boundaries, outside) x max_reflections 0..3: the set of (reflections, "
                       "first direction) returned; non-trivial = max_reflections >= 1 or an endpoint outside",
                  floors={"outside": 0.1, "solutions_suppressed": 0.12}),
-        SubCheck("uniform_direct", uniform_cases(), check_uniform_direct, quick=1500, thorough=60000,
+        SubCheck("uniform_direct", uniform_cases(), check_uniform_direct, quick=1000, thorough=60000,
                  rule="same domain, endpoints inside: the reflection-free solution vs the straight segment; "
                       "non-trivial = distinct endpoints",
                  floors={"source_xy_offset": 0.3, "vertical": 0.05}),
         SubCheck("uniform_reflected", uniform_cases(min_ref=1, boundary="never"), check_uniform_reflected,
-                 quick=3000, thorough=100000,
+                 quick=2000, thorough=100000,
                  rule="same domain, endpoints strictly inside (down to 1 ulp from a boundary), "
                       "max_reflections 1..3: every reflected solution vs the image method "
                       "(length, n L/c, both directions, reflection points) and a mirror-law walk over its "
@@ -1470,13 +1470,13 @@ PROPERTY = Property(
                  floors={"source_xy_offset": 0.3, "n_ref=2": 0.15, "n_ref=3": 0.07},
                  classify=_classify_uniform),
         SubCheck("uniform_on_boundary", uniform_cases(min_ref=1, boundary="always"), check_uniform_reflected,
-                 quick=1000, thorough=40000,
+                 quick=800, thorough=40000,
                  rule="as uniform_reflected with at least one endpoint exactly on an ice boundary (a leg of "
                       "the reflected path may have zero length; both endpoints may lie on the boundary the "
                       "path reflects off); non-trivial = at least one reflected solution and source x,y != 0",
                  floors={"source_xy_offset": 0.3},
                  classify=_classify_uniform),
-        SubCheck("split_uniform", split_uniform_cases(), check_split_uniform, quick=1200, thorough=40000,
+        SubCheck("split_uniform", split_uniform_cases(), check_split_uniform, quick=600, thorough=40000, quick_shards=16,
                  rule="UniformIce cut at 1-2 depths (between / above / below / exactly at the endpoint depths) "
                       "into a LayeredIce with matched inner boundaries, any x,y, max_reflections 0..2: every "
                       "image-method path and every solution of UniformRayTracer (same max_reflections; at the "
@@ -1486,7 +1486,7 @@ PROPERTY = Property(
                  floors={"split_between": 0.1, "split_at_endpoint": 0.1, "phantom_reflection": 0.2,
                          "source_xy_offset": 0.3, "transmission": 0.3},
                  classify=_classify_split_uniform),
-        SubCheck("split_exponential", split_exp_cases(), check_split_exp, quick=600, thorough=20000,
+        SubCheck("split_exponential", split_exp_cases(), check_split_exp, quick=200, thorough=20000, quick_shards=16,
                  rule="exponential ice (shipped or arbitrary n0,k,a; depths above 30/a so that the index is "
                       "resolved) cut at 1-2 depths into a LayeredIce, pairs generic/shallow/deep/near-vertical/"
                       "vertical/equal-depth/far with any x,y: every SpecializedRayTracer solution of the unsplit "
@@ -1497,7 +1497,7 @@ PROPERTY = Property(
                  floors={"split_between": 0.15, "transmission": 0.35, "turning_subpath": 0.35, "below_z_uniform": 0.25,
                          "custom_ice": 0.3, "source_xy_offset": 0.25},
                  classify=_classify_layered, shrink_cap=(30, 180)),
-        SubCheck("layered_chain", chain_cases(), check_chain_case, quick=800, thorough=30000,
+        SubCheck("layered_chain", chain_cases(), check_chain_case, quick=320, thorough=30000, quick_shards=16,
                  rule="2-3 different layers (uniform / exponential / mixed), any boundary indices, endpoints "
                       "anywhere incl. on internal boundaries, any x,y, max_reflections 0..2: every solution is a "
                       "continuous chain from source to receiver, each sub-path a ray of its own layer (straight "
